@@ -507,6 +507,14 @@ impl Scenario for DigestStream {
                     match r {
                         Ok(k) => {
                             let got = k.get_hash().to_bytes();
+                            // the value object's accessors must agree with each other: the hex form is the hex of the bytes
+                            if let Ok(hexed) = guard(|| k.get_hash().to_hex()) {
+                                if hexed.to_ascii_lowercase() != hx(&got) {
+                                    if ctx.violate("mismatch", format!("hash-accessors-disagree:pbkdf2-{}", name), format!("to_hex() of a {}-byte PBKDF2 result is {} but to_bytes() is {}", got.len(), hexed, hx(&got))) {
+                                        return;
+                                    }
+                                }
+                            }
                             let salt = if random_salt { k.get_salt() } else { salt.clone() };
                             let want = ref_pbkdf2(name, &pw, &salt, rounds, len);
                             if got != want || k.get_salt() != salt {
